@@ -19,6 +19,7 @@ VARIANTS = {
     "plain-nopool": ("gcc",   "-O1 -g -fPIC -DDISABLE_OBJECT_POOL"),
     "asan":         ("clang", "-O1 -g " + SAN),
     "asan-nopool":  ("clang", "-O1 -g -DDISABLE_OBJECT_POOL " + SAN),
+    "plain-nopool-instr": ("gcc", "-O1 -g -fPIC -DDISABLE_OBJECT_POOL -finstrument-functions -finstrument-functions-exclude-file-list=harness,/usr/"),
     "tsan-nopool":  ("clang", "-O1 -g -fsanitize=thread -DDISABLE_OBJECT_POOL"),
     "cov":          ("clang", "-O1 -g -fno-builtin -fsanitize-coverage=trace-pc-guard"),
 }
